@@ -296,9 +296,29 @@ class State:
             for k in dead:
                 del self.defs[k]
 
+    def _absent(self, var):
+        """var lives in the payload of an enum variant that this state rules out"""
+        cell, path = var
+        for i, step in enumerate(path):
+            if isinstance(step, tuple) and step[0] == "v":
+                v = self.cells.get(cell)
+                if v is None:
+                    return False
+                e = get_at(v, path[:i])
+                if isinstance(e, Enum) and step[1] not in e.variants:
+                    return True
+        return False
+
     def prune(self):
         """drop inequalities that the intervals already imply, unless they are small difference constraints
-        (x - y + k <= 0 with small k), which are worth keeping explicit for later joins"""
+        (x - y + k <= 0 with small k), which are worth keeping explicit for later joins; drop constraints over payload variables of
+        enum variants this state excludes (vacuously true, they only breed junk combinations), and combinations with large coefficients"""
+        for c in list(self.cons.le):
+            if any(self._absent(v) for v in c.terms) or (len(c.terms) >= 3 and max(abs(k) for k in c.terms.values()) > 2):
+                self.cons.le.discard(c)
+        for c in list(self.cons.eq):
+            if any(self._absent(v) for v in c.terms):
+                self.cons.eq.discard(c)
         for c in list(self.cons.le):
             n = len(c.terms)
             if n <= 1:
@@ -608,7 +628,7 @@ def _def_mentions(d, vs):
 # ----------------------------------------------------------------------------
 # join / widen / order on states
 # ----------------------------------------------------------------------------
-def join_states(a, b, widen=False, thresholds=(), templates=False, template_vars=()):
+def join_states(a, b, widen=False, thresholds=(), templates=False, template_vars=(), relax=True):
     out = State()
     out.tag = a.tag
     keys = set(a.cells) & set(b.cells)
@@ -643,7 +663,7 @@ def join_states(a, b, widen=False, thresholds=(), templates=False, template_vars
                     c.le.add(x)
         out.cons = c
     else:
-        out.cons = join_cons(a.cons, b.cons, a.bounds_of, b.bounds_of, (_heap_templates(a, b, template_vars) if templates else []) + _extra_templates(a, b))
+        out.cons = join_cons(a.cons, b.cons, a.bounds_of, b.bounds_of, (_heap_templates(a, b, template_vars) if templates else []) + _extra_templates(a, b), relax=relax)
         # constraints over the payload of an enum variant that the other state does not have hold there vacuously
         for (x, y) in ((a, b), (b, a)):
             for c in x.cons.le:
@@ -668,7 +688,7 @@ def join_states(a, b, widen=False, thresholds=(), templates=False, template_vars
     out.pending = a.pending | b.pending
     out.prune()
     if not widen:
-        out.guards = join_guards(a, b, out)
+        out.guards = join_guards(a, b, out, grow=relax)
     else:
         out.guards = {k: v for k, v in a.guards.items() if b.guards.get(k) == v}
     return out
@@ -786,7 +806,7 @@ def _state_entails_fact(s, f):
     return False
 
 
-def join_guards(a, b, out):
+def join_guards(a, b, out, grow=True):
     keys = set(a.guards) | set(b.guards)
     # new discriminating keys: enum nodes / bools on which the two states differ
     new_keys = set()
@@ -813,6 +833,8 @@ def join_guards(a, b, out):
         return {}
     lost_a = lost_b = None
     res = {}
+    memo = {}              # (side, fact) -> does the unconditioned state entail it (the same lost facts are offered for every key)
+    total = [160]          # entailment queries per join over all keys
 
     def feasible(s, key):
         var, value = key
@@ -856,22 +878,52 @@ def join_guards(a, b, out):
                     except Infeasible:
                         under[which] = None
                 return under[which]
-            for f in sa - fs:
-                if _state_entails_fact(b, f):
+            def cost(f):
+                return (0 if f[0] in ("iv", "var") else len(f[1].terms), repr(f))
+            budget = [12]      # conditioned entailment queries per key and join: facts are tried cheapest first, the rest is dropped (sound: fewer facts)
+
+            def holds(s, which, f):
+                mk = (which, f)
+                r = memo.get(mk)
+                if r is None:
+                    if total[0] <= 0:
+                        return False
+                    total[0] -= 1
+                    r = memo[mk] = _state_entails_fact(s, f)
+                if r:
+                    return True
+                if budget[0] <= 0 or total[0] <= 0:
+                    return False
+                if f[0] in ("le", "eq") and len(f[1].terms) > 3:
+                    return False
+                budget[0] -= 1
+                total[0] -= 1
+                cs = conditioned(s, which)
+                return cs is not None and _state_entails_fact(cs, f)
+            for f in sorted(sa - fs, key=cost):
+                if holds(b, "b", f):
                     fs.add(f)
-                else:
-                    cb = conditioned(b, "b")
-                    if cb is not None and _state_entails_fact(cb, f):
-                        fs.add(f)
-            for f in sb - fs:
-                if _state_entails_fact(a, f):
+            for f in sorted(sb - fs, key=cost):
+                if holds(a, "a", f):
                     fs.add(f)
-                else:
-                    ca = conditioned(a, "a")
-                    if ca is not None and _state_entails_fact(ca, f):
-                        fs.add(f)
+        if not grow:
+            # later visits of a loop head: the facts recorded for a key may only shrink (a growing fact set would keep the loop from converging)
+            fs = set(fs) & set(a.guards.get(key, ()))
         if fs:
-            res[key] = frozenset(fs)
+            var, value = key
+            if isinstance(value, tuple):
+                def foreign(f):
+                    if f[0] not in ("le", "eq"):
+                        return False
+                    for (cell, path) in f[1].terms:
+                        if cell == var[0] and path[:len(var[1])] == var[1] and len(path) > len(var[1]):
+                            step = path[len(var[1])]
+                            if isinstance(step, tuple) and step[0] == "v" and step[1] != value[1]:
+                                return True
+                    return False
+                fs = {f for f in fs if not foreign(f)}
+            if fs:
+                res[key] = frozenset(fs)
     return res
 
 
